@@ -56,7 +56,7 @@ def _tie_mode(rng, shape):
 
 SHAPES = ['dense', 'dense', 'dense', 'lec_gt_students', 'one_lecturer',
           'zero_caps', 'lowerq', 'all_tied', 'no_ties', 'long_lists',
-          'tight_lecturer', 'big_targets', 'wide']
+          'tight_lecturer', 'big_targets', 'wide', 'tall']
 
 
 def make_spec(rng, na=None, max_s=4, max_p=4, max_l=4, shape=None,
@@ -73,6 +73,10 @@ def make_spec(rng, na=None, max_s=4, max_p=4, max_l=4, shape=None,
     if shape == 'lec_gt_students':
         ns = rng.randint(min_s, max(min_s, min(2, max_s)))
         np_ = rng.randint(min(max_p, ns + 1), max_p)
+    if shape == 'tall':
+        # two-digit student ids: 10-12 students with very short lists (still enumerable)
+        ns = rng.randint(10, 12)
+        np_ = rng.randint(2, max(2, min(5, max_p)))
     if shape == 'wide':
         # two-digit project / lecturer ids (10, 11, ...), few students, short lists
         ns = rng.randint(min_s, max(min_s, min(4, max_s)))
@@ -92,6 +96,11 @@ def make_spec(rng, na=None, max_s=4, max_p=4, max_l=4, shape=None,
     for s in range(ns):
         if shape == 'long_lists':
             k = np_
+        elif shape == 'tall':
+            k = 2 if (rng.random() < 0.2 and sum(1 for l in st if sum(len(g) for g in l) == 2) < 3) else 1
+            projs = rng.sample(range(1, np_ + 1), min(k, np_))
+            st.append(random_groups(rng, projs, _tie_mode(rng, shape)))
+            continue
         elif shape == 'wide':
             k = rng.randint(1, 3)
             hi = [p for p in range(9, np_ + 1)]
@@ -111,6 +120,8 @@ def make_spec(rng, na=None, max_s=4, max_p=4, max_l=4, shape=None,
     puq, plq = [], []
     for j in range(np_):
         u = rng.choice([1, 1, 1, 2, 2, 3])
+        if shape == 'tall':
+            u = rng.choice([1, 2, 3, 4, 5])
         if shape == 'zero_caps' and rng.random() < 0.4:
             u = 0
         elif rng.random() < 0.04:
